@@ -1,6 +1,8 @@
 import Drivers.Proto
 import Refine.Model.Containers
 import Refine.Model.ContainersAdj
+import Refine.Model.ContainersAdjCheck
+import Refine.Model.ContainersCheck
 
 /-! driver `containers`: ref_list / ref_dict / ref_adj / ref_sort models behind the line protocol
     (same op lines as `harness/h_containers.c`) -/
@@ -170,8 +172,70 @@ def step (s : St) (line : String) : St × String :=
     | none => (s, "bad-op")
   | [] => (s, "bad-op")
 
-def run (_args : List String) : IO UInt32 := do
-  runLoop ({} : St) step
-  return 0
+/-! ### `validate` mode: the model invariants evaluated on state dumps printed by the C harness -/
+
+def splitAt? (ws : List String) (sep : String) : Option (List String × List String) :=
+  match ws.span (· ≠ sep) with
+  | (a, _ :: b) => some (a, b)
+  | _ => none
+
+def deinterleave : List Int → List Int × List Int
+  | k :: v :: r => let (ks, vs) := deinterleave r; (k :: ks, v :: vs)
+  | _ => ([], [])
+
+/-- verdict for one dump line (`none`: not a dump line, no output) -/
+def validateLine (line : String) : Option String :=
+  match words line with
+  | "adj" :: nnode :: nitem :: blank :: "F" :: rest =>
+    match nnode.toNat?, nitem.toNat?, pI blank, splitAt? rest "N" with
+    | some nnode, some nitem, some blank, some (f, rest2) =>
+      match splitAt? rest2 "R" with
+      | some (nx, rf) =>
+        match pIs f, pIs nx, pIs rf with
+        | some first, some next, some ref =>
+          let s : RAdj := { first, next, ref, blank }
+          if s.nnode ≠ nnode ∨ s.nitem ≠ nitem then some "bad adj nnode/nitem do not match the arrays"
+          else if s.invCheck then some s!"ok adj {nnode} {nitem}"
+          else some "bad adj RAdj.Inv is false on this state"
+        | _, _, _ => some "bad adj unparsable"
+      | none => some "bad adj unparsable"
+    | _, _, _, _ => some "bad adj unparsable"
+  | "dict" :: n :: max :: rest =>
+    match n.toNat?, max.toNat?, pIs rest with
+    | some n, some max, some kv =>
+      let (key, value) := deinterleave kv
+      let d : RDict := { max, key, value }
+      if kv.length ≠ 2 * n then some "bad dict n does not match the arrays"
+      else if d.invCheck then some s!"ok dict {n}"
+      else some "bad dict RDict.Inv is false on this state"
+    | _, _, _ => some "bad dict unparsable"
+  | "list" :: n :: max :: rest =>
+    match n.toNat?, max.toNat?, pIs rest with
+    | some n, some max, some value =>
+      let l : RList := { max, value }
+      if l.n ≠ n then some "bad list n does not match the array"
+      else if l.invCheck then some s!"ok list {n}"
+      else some "bad list RList.Inv is false on this state"
+    | _, _, _ => some "bad list unparsable"
+  | _ => none
+
+partial def validateLoop (h out : IO.FS.Stream) : IO Unit := do
+  let line ← h.getLine
+  if line.isEmpty then
+    out.flush
+    return ()
+  match validateLine line with
+  | some v => out.putStrLn v
+  | none => pure ()
+  validateLoop h out
+
+def run (args : List String) : IO UInt32 := do
+  match args with
+  | ["validate"] =>
+    validateLoop (← IO.getStdin) (← IO.getStdout)
+    return 0
+  | _ =>
+    runLoop ({} : St) step
+    return 0
 
 end Drivers.Containers
